@@ -600,6 +600,9 @@ func main() {
 			cls := randClasses(kind, rng)
 			v := buildKind(kind, cls, rng)
 			roundTrip(kind, v, "random", cls)
+			// and with another value serialised while the bytes are kept
+			roundTripRetained(kind, v, "random-retain", cls, []string{"same-goroutine", "other-goroutine"}[rng.Intn(2)],
+				buildKind(kind, randClasses(kind, rng), rng))
 			// random bytes, and a valid encoding with one bit flipped / truncated
 			rb := make([]byte, rng.Intn(40))
 			rng.Read(rb)
